@@ -123,6 +123,8 @@ type Case struct {
 	Dist  []int `json:"dist,omitempty"`
 	NDist int   `json:"ndist,omitempty"`
 	Note  string `json:"note,omitempty"`
+	// StoreCtx: the storage honours a cancelled context in every callback.
+	StoreCtx bool `json:"store_ctx,omitempty"`
 }
 
 func (c *Case) Key() string {
